@@ -227,6 +227,8 @@ spec fn native_ok(old: &State, new: &State) -> bool {
     &&& new.ctx.ip == old.ctx.ip
     &&& new.code@.len() == old.code@.len()
     &&& new.insn_meter == old.insn_meter
+    // a native word run by the VM does not touch the error bookkeeping
+    &&& new.last_error == old.last_error
     &&& exists|n: nat| #[trigger] rev_w(old, new, n) && rev_ext(old, new, n)
 }
 
@@ -276,4 +278,39 @@ spec fn step_ok(a: &State, b: &State) -> bool {
     &&& exec_ok(a, b)
     &&& b.insn_meter > a.insn_meter
     &&& exists|n: nat| #[trigger] insn_rev(a, b, n) && insn_ext(a, b, n)
+}
+
+spec fn link_ok(ch: Seq<State>, i: int) -> bool { step_ok(&ch[i], &ch[i + 1]) }
+// a chain of successful instructions: every state is one `step_ok` after its predecessor
+spec fn chain_ok(ch: Seq<State>) -> bool {
+    ch.len() > 0 && forall|i: int| 0 <= i < ch.len() - 1 ==> #[trigger] link_ok(ch, i)
+}
+// b is reached from a by a finite number of successful instructions
+spec fn run_steps(a: State, b: State) -> bool {
+    exists|ch: Seq<State>| #[trigger] chain_ok(ch) && ch[0] == a && ch.last() == b
+}
+// the instruction at m fails with e and leaves f: the ip stays on it, only undoable leftovers remain, and the error
+// context names the debug-map entry of that ip
+spec fn fail_from(m: &State, f: &State, e: Xerr) -> bool {
+    &&& m.ctx.ip < m.code@.len() && f.ctx.ip == m.ctx.ip
+    &&& f.last_error == Some(ErrorContext { err: e, location: loc_at_ip(f) })
+    &&& exists|k: nat| #[trigger] rev_w(m, f, k)
+}
+proof fn lemma_run_steps_refl(a: State)
+    ensures run_steps(a, a)
+{
+    let ch = seq![a];
+    assert(chain_ok(ch) && ch[0] == a && ch.last() == a);
+}
+proof fn lemma_run_steps_extend(a: State, m: State, b: State)
+    requires run_steps(a, m), step_ok(&m, &b)
+    ensures run_steps(a, b)
+{
+    let ch = choose|ch: Seq<State>| chain_ok(ch) && ch[0] == a && ch.last() == m;
+    let ch2 = ch.push(b);
+    assert forall|i: int| 0 <= i < ch2.len() - 1 implies #[trigger] link_ok(ch2, i) by {
+        if i < ch.len() - 1 { assert(link_ok(ch, i)); assert(ch2[i] == ch[i] && ch2[i + 1] == ch[i + 1]); }
+        else { assert(ch2[i] == m && ch2[i + 1] == b); }
+    }
+    assert(chain_ok(ch2) && ch2[0] == a && ch2.last() == b);
 }
